@@ -885,6 +885,16 @@ pub(crate) fn point(name: &str, extra: &str) {
     }
 }
 
+/// Logs the hand-off point `.0` when dropped, i.e. however the
+/// enclosing scope is left (return, break out of a loop, unwinding).
+pub(crate) struct PointOnDrop(pub(crate) &'static str);
+
+impl Drop for PointOnDrop {
+    fn drop(&mut self) {
+        point(self.0, "");
+    }
+}
+
 /// Short name for the kind of an expression, for the tick log.
 pub(crate) fn expr_kind(e: &Expression_) -> &'static str {
     match e {
